@@ -38,7 +38,7 @@ pub struct OpenEventIndex {
 impl OpenEventIndex {
     pub fn create(id: BucketSegmentId, path: impl AsRef<Path>) -> Result<Self, EventIndexError> {
         let file = OpenOptions::new()
-            .read(false)
+            .read(true)
             .write(true)
             .create_new(true)
             .open(path)?;
